@@ -84,7 +84,9 @@ func recurringTimer(ctx context.Context, clock clock.IClock, interval iso8601.Re
 	if interval.Interval.Start == nil {
 		panic("shouldn't happen, has to be always set, explicitly or by timer.New")
 	}
-	ch := make(chan struct{})
+	// (buffered: when the context is cancelled at the moment the start time is reached, nobody
+	// receives any more and the goroutine must not stay behind)
+	ch := make(chan struct{}, 1)
 	go dateTimeTimer(ctx, clock, *interval.Interval.Start, func() {
 		ch <- struct{}{}
 	})
